@@ -280,6 +280,21 @@ class Summaries:
                         st.vn[('fact', ('contains', nk, fk[1][2]))] = val
                 st.vn[('fact', ('contains', nk, kk))] = present
 
+        def origin_spath(st, path):
+            """spath(path), except that a local which holds a collection *moved out of the Screen*
+            (`let old = std::mem::take(&mut self.buffer)`) is named by the field it came from: rows read
+            from it are rows of the old grid"""
+            sp = spath(path)
+            if path is None or not sp:
+                return sp
+            root = path[0]
+            if root and root[0] == 'L':
+                v = st.store.get(root)
+                cid = getattr(v, 'cid', None)
+                if isinstance(v, CollV) and isinstance(cid, str) and cid.startswith('S.'):
+                    return ('S',) + tuple(cid.split('.')[1:]) + tuple(sp[1:])
+            return sp
+
         def bool_fact(ctx, key):
             cur = ctx.st.vn.get(('fact', key))
             if cur is not None:
@@ -1808,7 +1823,7 @@ class Summaries:
                 v = eng.read(s, p.path)
                 if isinstance(v, CollV):
                     # a clone of a stored collection remembers where it was taken from
-                    v = CollV(v.kind, v.ty, next(_c), 0, v.length, v.known, v.elem, prov=('clone', v.prov, spath(p.path)))
+                    v = CollV(v.kind, v.ty, next(_c), 0, v.length, v.known, v.elem, prov=('clone', v.prov, origin_spath(s, p.path)))
                 return some(rty, v)
             return fork_opt(ctx, ctx.args[0], lambda s, p: none(rty), cl)
 
@@ -2505,7 +2520,7 @@ class Summaries:
             ty = c.ty
             if ctx.callee.endswith('to_vec'):
                 kind, ty = 'vec', ctx.ret_ty
-            return CollV(kind, ty, next(_c), 0, c.length, c.known, c.elem, prov=('clone', c.prov, spath(path)))
+            return CollV(kind, ty, next(_c), 0, c.length, c.known, c.elem, prov=('clone', c.prov, origin_spath(ctx.st, path)))
 
         @reg('<std::vec::Vec<T> as std::convert::From<&[T]>>::from')
         def _(ctx):
@@ -2670,7 +2685,8 @@ class Summaries:
                 root = ('H', 'tmp%d' % next(_c))
                 ctx.st.store[root] = hit
                 return some(rty, RefV((root, ())))
-            log(ctx, 'map.get', spath(path), k, mut)
+            osp = origin_spath(ctx.st, path)
+            log(ctx, 'map.get', osp, k, mut)
             tv = table_value(ctx, c)
             if tv is not None and not mut:
                 root = ('H', 'tmp%d' % next(_c))
@@ -2690,8 +2706,8 @@ class Summaries:
             s2 = ctx.st.fork()
             ctx.st.vn[('fact', key)] = True
             s2.vn[('fact', key)] = False
-            ctx.st.log(('branch', 'map.get.some', spath(path), k, ctx.t['span'].get('line'), ctx.fr.func if ctx.fr else None))
-            s2.log(('branch', 'map.get.none', spath(path), k, ctx.t['span'].get('line'), ctx.fr.func if ctx.fr else None))
+            ctx.st.log(('branch', 'map.get.some', osp, k, ctx.t['span'].get('line'), ctx.fr.func if ctx.fr else None))
+            s2.log(('branch', 'map.get.none', osp, k, ctx.t['span'].get('line'), ctx.fr.func if ctx.fr else None))
             return [(ctx.st, some(rty, ref)), (s2, none(rty))]
 
         @reg('std::collections::HashMap::<K, V, S, A>::contains_key')
